@@ -4,7 +4,7 @@
 # 2. apply to /repo, run the property's check, undo
 set -u
 ID=$1; X=$2; TIER=${3:-quick}
-OUT=/tmp/seed/$ID.out
+OUT=${SEEDDIR:-/tmp/seed}/$ID.out
 export GOFLAGS=-mod=mod GOPROXY=off GOSUMDB=off GOTOOLCHAIN=local
 W=/tmp/seedchk-$ID-$X
 rm -rf $W; git -C /repo worktree prune; git -C /repo worktree add -q --detach $W HEAD || exit 9
